@@ -62,6 +62,11 @@ prop("C04", "E-GEN",
      "Every model of the annotated-model family (50k quick / 234k thorough: every node kind, ordered selections of <=3 (4) rules from per-kind pools incl. 19- and 20-digit integers, nested or / enum / allOf lists, notes, key shortcuts, 2 levels) under 3 annotation placements: GetAST() must have one node per element in source order with the element's JSON kind, key, shortcut flag, decoded value or reference text, trimmed note, and exactly the written rules in order with their kinds, values, items and properties.",
      "SchemaType and Source fields are not compared (not named by the statement); unsigned rule values compared numerically.")
 
+prop("C01", "E-GEN",
+     "bounded exhaustive enumeration of schema projects (typed value x rule template x boundary values x 8 positions) judged by a three-valued reference semantics",
+     "Typed values (min/max/both x exclusivity over 21 boundary numbers squared incl. -0, trailing zeros, last-digit neighbours; precision; minLength/maxLength/ranges/regex; five string formats; explicit types x nullable; const; enum singletons and pairs; arrays x minItems/maxItems) are placed at the root, in a property, in an array, in a type used by @t shortcut, by type:\"@t\", by or:[\"@t\",\"@u\"], as an or rule-set and in a type of a type; Check() must accept exactly when the reference meaning of the rules holds for the example, with explicit no-claim regions.",
+     "No claim where the statement does not settle the answer (null under nullable+type, integer literal vs float type, trailing zeros beyond precision, format strings outside clear-cut tables). ASCII strings only.")
+
 ORDER = ["C%02d" % i for i in range(1, 21)]
 
 def main():
